@@ -483,6 +483,9 @@ class Models:
     def construct(self, ex, cv, args, kwargs, lineno):
         return self._plug("construct", ex, cv, args, kwargs, lineno)
 
+    def record_setattr(self, ex, rec, attr, v):
+        return self._plug("record_setattr", ex, rec, attr, v)
+
     def call_opaque(self, ex, fv, args, kwargs, lineno):
         return self._plug("call_opaque", ex, fv, args, kwargs, lineno)
 
@@ -619,6 +622,13 @@ class Models:
                     return
                 if o.k.sort() != b.k.sort() or o.v.sort() != b.v.sort():
                     raise Unsupported("dict.update with different types")
+                if z3.is_int_value(z3.simplify(o.n)) and z3.simplify(o.n).as_long() == 0:
+                    # update of an empty dict: a copy of the other one (same insertion order)
+                    if o.keys is not None:
+                        b.ensure_order(st)
+                        o.keys, o.pos = b.keys, b.pos
+                    o.member, o.vals, o.n = b.member, b.vals, b.n
+                    return
                 k = z3.Const("k!up", o.k.sort())
                 oldm, oldv = o.member, o.vals
                 o.member = z3.Lambda([k], z3.Or(oldm[k], b.member[k]))
@@ -1166,9 +1176,17 @@ class Models:
                 return IterV(z3.IntVal(len(items)), lambda i: None, concrete=items)
             bi = st.fresh_int("ci")
             depth = len(st.dec.trail)
-            cond, val = body(bi)
+            npc = len(st.pc)
+            ex.no_fork = True
+            try:
+                st.assume(z3.And(0 <= bi, bi < seq.n))
+                cond, val = body(bi)
+            finally:
+                ex.no_fork = False
             if len(st.dec.trail) != depth:
                 raise Unsupported(f"comprehension element forks at line {node.lineno}")
+            # facts learnt about the generic index are only valid for it: drop them again
+            del st.pc[npc:]
             i = z3.Int("i!c")
             if kind in ("list", "gen"):
                 if gen.ifs:
@@ -1188,26 +1206,50 @@ class Models:
                     st.assume(f)
                 st.assume(o.n <= seq.n)
                 return st.alloc(o)
-            # dict comprehension: requires the key expression to be the iteration key itself
+            # dict comprehension
             kv, vv = val
             kt, vt = type_of_value(st, kv), type_of_value(st, vv)
             ke, ve = kt.embed(st, kv), vt.embed(st, vv)
-            src_keys_ok = isinstance(src, (Ref, DictView))
             k = z3.Const("k!c", kt.sort())
-            mem = z3.Lambda([k], z3.Exists([i], z3.And(0 <= i, i < seq.n, z3.substitute(cond, (bi, i)), z3.substitute(ke, (bi, i)) == k)))
+            j = z3.Int("j!c")
+            key_at = lambda t: z3.substitute(ke, (bi, t))  # noqa: E731
+            val_at = lambda t: z3.substitute(ve, (bi, t))  # noqa: E731
+            cond_at = lambda t: z3.substitute(cond, (bi, t))  # noqa: E731
+            inj = self._keys_injective(ex, src, ke, bi)
+            if not inj:
+                # model applicability: the produced keys must be pairwise distinct (no overwrite)
+                ex.check(z3.ForAll([i, j], z3.Implies(z3.And(0 <= i, i < j, j < seq.n, cond_at(i), cond_at(j)), key_at(i) != key_at(j))),
+                         "safety", "comprehension-keys-distinct", node.lineno, aux=True)
+            srcd = None
+            if isinstance(src, DictView):
+                srcd = st.heap[src.ref.id]
+            elif isinstance(src, Ref) and isinstance(st.heap[src.id], DictObj):
+                srcd = st.heap[src.id]
+            if not gen.ifs:
+                # one entry per iteration, insertion order = iteration order: the result is described by the usual
+                # order view (keys/pos bijection) + definitions of keys and values by index ...
+                mem = st.fresh_const("cmem", z3.ArraySort(kt.sort(), z3.BoolSort()))
+                vals = st.fresh_const("cvals", z3.ArraySort(kt.sort(), vt.sort()))
+                keys = st.fresh_const("ckeys", z3.ArraySort(z3.IntSort(), kt.sort()))
+                pos = st.fresh_const("cpos", z3.ArraySort(kt.sort(), z3.IntSort()))
+                o = DictObj(kt, vt, mem, vals, seq.n, keys, pos)
+                for f in o.wf_facts(st):
+                    st.assume(f)
+                st.assume(z3.ForAll([i], z3.Implies(z3.And(0 <= i, i < seq.n), z3.And(keys[i] == key_at(i), vals[keys[i]] == val_at(i))), patterns=[keys[i]]))
+                if srcd is not None and srcd.keys is not None and srcd.k.sort() == kt.sort():
+                    # ... and, keyed on the source keys (triggers on the source membership), for both directions of proofs
+                    sk = z3.Const("sk!c", srcd.k.sort())
+                    p = srcd.pos[sk]
+                    st.assume(z3.ForAll([sk], z3.Implies(srcd.member[sk], z3.And(mem[key_at(p)], pos[key_at(p)] == p, vals[key_at(p)] == val_at(p), keys[p] == key_at(p))),
+                                        patterns=[srcd.member[sk]]))
+                return st.alloc(o)
+            mem = z3.Lambda([k], z3.Exists([i], z3.And(0 <= i, i < seq.n, cond_at(i), key_at(i) == k)))
             vals = st.fresh_const("cvals", z3.ArraySort(kt.sort(), vt.sort()))
             o = DictObj(kt, vt, mem, vals, st.fresh_int("cn"))
             for f in o.wf_facts(st):
                 st.assume(f)
             st.assume(o.n <= seq.n)
-            # value definition (the last index producing a key wins; with injective keys: the index)
-            inj = self._keys_injective(ex, src, ke, bi)
-            if not inj:
-                raise Unsupported("dict comprehension whose keys are not the (distinct) iteration keys")
-            st.assume(z3.ForAll([i], z3.Implies(z3.And(0 <= i, i < seq.n, z3.substitute(cond, (bi, i))),
-                                                 vals[z3.substitute(ke, (bi, i))] == z3.substitute(ve, (bi, i)))))
-            if not gen.ifs:
-                st.assume(o.n == seq.n)
+            st.assume(z3.ForAll([i], z3.Implies(z3.And(0 <= i, i < seq.n, cond_at(i)), vals[key_at(i)] == val_at(i))))
             return st.alloc(o)
         finally:
             fr.env.clear()
